@@ -84,8 +84,10 @@ def armReady (s : S) (w : Int) : S :=
 
 /-- `_rearm_if_earlier` -/
 def rearmIfEarlier (s : S) (when : Int) : S :=
-  if !s.started || decide (s.startupSent < Gen.startupQueries) then s
-  else if max when s.earliest < s.nextRunMs then armReady s (max when s.earliest) else s
+  if Gen.Browser.rearm_guard (!s.started) s.startupSent then s
+  else if Gen.Browser.rearm_lt (Gen.Browser.rearm_when when s.earliest) s.nextRunMs then
+    armReady s (Gen.Browser.rearm_when when s.earliest)
+  else s
 
 /-- `_schedule_ptr_query` -/
 def schedule (s : S) (q : Q) : S :=
